@@ -459,12 +459,8 @@ func (context *RunContext) Load() error {
 	}
 
 	if !isExist {
-		err = context.createFile()
-		if err != nil {
-			return err
-		} else {
-			return context.Flush()
-		}
+		// flush creates the file
+		return context.Flush()
 	} else {
 		err := context.load()
 		if err != nil {
@@ -547,11 +543,14 @@ func (context *RunContext) encodeBody() ([]byte, error) {
 }
 
 func (context *RunContext) flush(headBuf, bodyBuf []byte) error {
-	file, err := os.OpenFile(context.Path, os.O_WRONLY, os.ModePerm)
-	defer file.Close()
+	// Write a new file and rename it over the old one. Rewriting in place leaves a mixture of old and new bytes (or an
+	// empty file) behind when the process dies in between, and then the node does not start any more
+	tmpPath := context.Path + ".tmp"
+	file, err := os.OpenFile(tmpPath, os.O_WRONLY|os.O_CREATE|os.O_TRUNC, os.ModePerm)
 	if err != nil {
 		return err
 	}
+	defer file.Close()
 
 	_, err = file.Seek(0, 0)
 	if err != nil {
@@ -590,7 +589,11 @@ func (context *RunContext) flush(headBuf, bodyBuf []byte) error {
 	}
 
 	crashpoint.Hit("context-written", context.Path)
-	return file.Sync()
+	if err = file.Sync(); err != nil {
+		return err
+	}
+	crashpoint.Hit("context-synced", context.Path)
+	return os.Rename(tmpPath, context.Path)
 }
 
 func (context *RunContext) Flush() error {
